@@ -159,8 +159,6 @@ SPECS = [
     if draw_table.is_threefold_repetition(board) {
         return 0;
     }
-
-    draw_table.add_board_to_draw_table(board);
 """,
      """    draw_table.add_board_to_draw_table(board);
     // check for draw
@@ -168,8 +166,17 @@ SPECS = [
         draw_table.remove_board_from_draw_table(board);
         return 0;
     }
+    draw_table.remove_board_from_draw_table(board);
 """,
      "R10.5", "node counts itself before the repetition test: a second occurrence already scores as a draw"),
+    ("C07", "revert-fix10-plycap", EN,
+     """    if ply_from_root >= MAX_DEPTH as i32 {
+        return quiesce(board, alpha, beta, search_info, zobrist_hasher);
+    }
+
+""", "", "R7.7", "ply unbounded again: per-ply tables indexed out of bounds at iteration depth 41 (null-move ply offset)"),
+    ("C07", "plycap-off-by-one", EN, "    if ply_from_root >= MAX_DEPTH as i32 {", "    if ply_from_root > MAX_DEPTH as i32 {", "R7.7", "ply 100 still indexes a 100-entry table"),
+    ("C08", "nullmove-ply-offset-after-cap", EN, "            ply_from_root + 10, //hack", "            ply_from_root + 10 + i32::MAX - 200, //hack", "R7.7", "ply arithmetic can overflow"),
     # ---------------- C08
     ("C08", "revert-fix9", UC,
      """        match rx.try_recv() {
